@@ -74,6 +74,11 @@ fn check_constants(ctx: &Ctx, k: &Constants) {
         if v == 0 { ctx.violation("c05:constant-zero:ep", &format!("en-passant target {} contributes nothing to the key", sq_name(s)), json!({"square": sq_name(s)})); }
         if let Some(prev) = seen.insert(v, s) { ctx.violation("c05:constant-collision:ep", &format!("en-passant targets {} and {} contribute the same key", sq_name(prev), sq_name(s)), json!({"squares": [sq_name(prev), sq_name(s)]})); }
     }
+    // across families as well: equal constants of different kinds make whole positions collide systematically
+    let mut all_named: HashMap<u64, String> = HashMap::new();
+    for ci in 0..2 { for pi in 0..6 { for s in 0..64 { all_named.insert(k.piece[ci][pi][s], format!("{} {:?} on {}", if ci == 0 { "white" } else { "black" }, PCS[pi], sq_name(s as u8))); } } }
+    for r in 0..15u8 { if let Some(prev) = all_named.insert(k.rights[r as usize], format!("rights {:04b} (relative to all rights)", r)) { ctx.violation("c05:constant-collision:across-kinds", &format!("the key contribution of rights {:04b} equals the constant of {}", r, prev), json!({"a": prev, "rights": r})); } }
+    for s in (16..24u8).chain(40..48u8) { if let Some(prev) = all_named.insert(k.ep[s as usize], format!("ep target {}", sq_name(s))) { ctx.violation("c05:constant-collision:across-kinds", &format!("the constant of en-passant target {} equals the constant of {}", sq_name(s), prev), json!({"a": prev, "ep": sq_name(s)})); } }
     // top halves must not be degenerate (e.g. a table generated as 32-bit numbers)
     let all: Vec<u64> = k.piece.iter().flatten().flatten().copied().chain(k.ep.iter().copied()).collect();
     let small = all.iter().filter(|v| **v >> 32 == 0).count();
@@ -198,6 +203,8 @@ pub fn c05(o: &Opts) -> i32 {
     let mut units = vec![U::Walk(Pos::start(), 4, false), U::Walk(Pos::start(), 4, true)];
     let corpus = gen::corpus();
     for (i, (p, _)) in corpus.iter().enumerate() { if i < 12 || i % (if q { 6 } else { 2 }) == 0 { units.push(U::Walk(p.clone(), if i < 12 { 3 } else { 2 }, i % 2 == 1)); } }
+    // en-passant-rich sparse set-ups to depth 5: every order of double steps, advances and king tempi
+    { let mut er = Rng::new(o.seed).fork(tag("c05-ep")); for i in 0..if q { 10 } else { 40 } { units.push(U::Walk(gen::ep_rich_sparse(&mut er), 5, i % 2 == 1)); } }
     // transposition-rich K+N endings
     units.push(U::Walk(Pos::from_fen("8/8/4k3/3Nn3/3nN3/4K3/8/8 w - - 0 1").unwrap(), 3, true));
     for g in 0..if q { 200 } else { 600 } { units.push(U::Game(o.seed.wrapping_mul(7919).wrapping_add(g))); }
@@ -350,6 +357,23 @@ pub fn c11(o: &Opts) -> i32 {
     par::for_each(&units, par::threads(), |i, (sq, which)| {
         if *sq == 255 { c11_leapers(&ctx, o.seed) } else { c11_slider_unit(&ctx, *sq, *which, o.seed ^ (i as u64) << 12) }
     }, |_i, u, msg| ctx.violation(&format!("c11:panic:{}", par::last_panic_location()), &format!("engine panicked in unit {:?}: {}", u, msg), json!({})));
+    // the tables must not depend on the rayon pool the generator happens to be constructed in
+    for pool in [1usize, 2, 3, 5, 6, 7, 12, 24] {
+        let tp = match rayon::ThreadPoolBuilder::new().num_threads(pool).build() { Ok(p) => p, Err(_) => continue };
+        let made = par::guarded(|| tp.install(MoveGenerator::new));
+        let mut g = match made { Ok(g) => g, Err(msg) => { ctx.violation(&format!("c11:panic:{}", par::last_panic_location()), &format!("table construction inside a pool of {} threads panicked: {}", pool, msg), json!({"pool": pool})); continue; } };
+        let mut rng = Rng::new(o.seed ^ pool as u64);
+        for sq in 0..64u8 { for (piece, dirs, name) in [(Piece::Rook, &ROOK_DIRS[..], "rook"), (Piece::Bishop, &BISHOP_DIRS[..], "bishop")] {
+            let mask = relevant_mask(sq, dirs);
+            for k2 in 0..6 {
+                let occ = if k2 == 0 { 0 } else { rng.next_u64() & rng.next_u64() & mask };
+                let want = ray_attacks(sq, occ, dirs);
+                let got = tp.install(|| lookup(&mut g, sq, piece, Color::White, occ));
+                ctx.count("lookups_with_generators_built_in_other_pools", 1);
+                if got != want { ctx.violation(&format!("c11:{}-depends-on-pool", name), &format!("{} on {} with occupied {:#018x}: a generator constructed inside a rayon pool of {} threads attacks {:#018x}, ray walking gives {:#018x}", name, sq_name(sq), occ, pool, got, want), json!({"piece": name, "square": sq_name(sq), "pool": pool, "blockers": format!("{:#018x}", occ)})); }
+            }
+        } }
+    }
     let exhaustive = ctx.counter("rook_subsets_enumerated") == 102_400 && ctx.counter("bishop_subsets_enumerated") == 5_248;
     ctx.set_extra("exhaustive_for_this_draw", json!(exhaustive));
     ctx.sample(json!({"piece": "rook", "square": "d4", "blockers": "every one of the 1024 subsets of d2 d3 d5 d6 d7 b4 c4 e4 f4 g4", "expected": "ray walk up to and including the first occupied square"}));
